@@ -5,7 +5,8 @@ _str_to_gemini registry of /repo  ->  coq/Gen/Forwarding.v (syntax of coq/Model/
 Per class with an estimator (BaseEstimator) or GEMINI (_GEMINI) ancestry: constructor parameters with
 their literal defaults, the statements of __init__ in source order (`self.x = expr`,
 `super().__init__(..)` / `Parent.__init__(self, ..)` with positional and keyword arguments), the
-names of all methods defined in the class body, and the body of get_gemini (either
+names of all methods defined in the class body, the straight-line data flow of `score` (assignments,
+`if v is None: v = e`, attribute reads / getattr, calls), and the body of get_gemini (either
 `return Cls(k=self.attr | literal, ..)` or the None / str / instance resolution of
 DiscriminativeModel).  From gemini/_utils.py: AVAILABLE_GEMINIS and the if-chain of _str_to_gemini.
 
@@ -197,6 +198,68 @@ def tr_get_gemini(where, fn, class_names):
     die(where, fn, "get_gemini body outside the known fragment")
 
 
+def tr_score(where, fn):
+    """score(self, X, y=None): straight-line data flow of the local variables (fail-closed)."""
+    if fn.decorator_list:
+        die(where, fn, "decorated score")
+    a = fn.args
+    if a.posonlyargs or a.kwonlyargs or a.vararg or a.kwarg or [x.arg for x in a.args] != ["self", "X", "y"] \
+            or len(a.defaults) != 1 or not (isinstance(a.defaults[0], ast.Constant) and a.defaults[0].value is None):
+        die(where, fn, "unexpected signature of score")
+    local = {"X", "y"}
+
+    def ex(node):
+        if isinstance(node, ast.Name) and isinstance(node.ctx, ast.Load):
+            if node.id not in local:
+                die(where, node, "name that is not a local variable")
+            return f"(MVar {q(node.id)})"
+        if isinstance(node, ast.Constant):
+            return f"(MConst {const(where, node)})"
+        if is_self_attr(node) and isinstance(node.ctx, ast.Load):
+            return f"(MSelfAttr {q(node.attr)})"
+        if isinstance(node, ast.Call):
+            if node.keywords or any(isinstance(x, ast.Starred) for x in node.args):
+                die(where, node, "keyword / starred arguments in a call")
+            f = node.func
+            if isinstance(f, ast.Name) and f.id == "getattr":
+                if len(node.args) == 3 and isinstance(node.args[0], ast.Name) and node.args[0].id == "self" \
+                        and isinstance(node.args[1], ast.Constant) and isinstance(node.args[1].value, str):
+                    return f"(MGetAttr {q(node.args[1].value)} {ex(node.args[2])})"
+                die(where, node, "unsupported getattr")
+            args = lst([ex(x) for x in node.args])
+            if isinstance(f, ast.Name):
+                if f.id in local:
+                    return f"(MApply (MVar {q(f.id)}) {args})"
+                if f.id in ("self", "setattr", "hasattr", "vars", "eval", "exec", "globals", "locals"):
+                    die(where, node, "unsupported builtin")
+                return f"(MFn {q(f.id)} {args})"
+            if isinstance(f, ast.Attribute):
+                if isinstance(f.value, ast.Name) and f.value.id == "self":
+                    return f"(MSelfCall {q(f.attr)} {args})"
+                return f"(MMeth {ex(f.value)} {q(f.attr)} {args})"
+        die(where, node, "unsupported expression in score")
+
+    out = []
+    for st in strip_doc(fn.body):
+        if isinstance(st, ast.Assign) and len(st.targets) == 1 and isinstance(st.targets[0], ast.Name):
+            e = ex(st.value)
+            local.add(st.targets[0].id)
+            out.append(f"MAssign {q(st.targets[0].id)} {e}")
+        elif isinstance(st, ast.Assign) and len(st.targets) == 1 and is_self_attr(st.targets[0]):
+            out.append(f"MSetAttr {q(st.targets[0].attr)} {ex(st.value)}")
+        elif isinstance(st, ast.If) and not st.orelse and isinstance(st.test, ast.Compare) and isinstance(st.test.left, ast.Name) \
+                and st.test.left.id in local and len(st.test.ops) == 1 and isinstance(st.test.ops[0], ast.Is) \
+                and isinstance(st.test.comparators[0], ast.Constant) and st.test.comparators[0].value is None \
+                and len(st.body) == 1 and isinstance(st.body[0], ast.Assign) and len(st.body[0].targets) == 1 \
+                and isinstance(st.body[0].targets[0], ast.Name) and st.body[0].targets[0].id == st.test.left.id:
+            out.append(f"MIfNone {q(st.test.left.id)} {ex(st.body[0].value)}")
+        elif isinstance(st, ast.Return) and st.value is not None:
+            out.append(f"MReturn {ex(st.value)}")
+        else:
+            die(where, st, "unsupported statement in score")
+    return lst(out)
+
+
 def collect_classes():
     found = []          # (file, ClassDef)
     for rel in FILES:
@@ -264,7 +327,7 @@ def ancestors_of(name, parent_of):
 
 def tr_class(rel, c, parent, parent_of, class_names):
     where = f"{rel}:{c.name}"
-    methods, init, gg = [], "None", "None"
+    methods, init, gg, score = [], "None", "None", "None"
     for st in c.body:
         if isinstance(st, ast.FunctionDef):
             if st.name in methods:
@@ -274,6 +337,8 @@ def tr_class(rel, c, parent, parent_of, class_names):
                 init = "(Some " + tr_init(where + ".__init__", st, parent, ancestors_of(c.name, parent_of)) + ")"
             elif st.name == "get_gemini":
                 gg = "(Some (" + tr_get_gemini(where + ".get_gemini", st, class_names) + "))"
+            elif st.name == "score":
+                score = "(Some " + tr_score(where + ".score", st) + ")"
         elif isinstance(st, ast.Expr) and isinstance(st.value, ast.Constant) and isinstance(st.value.value, str):
             pass                                   # docstring
         elif isinstance(st, (ast.Assign, ast.AnnAssign)):
@@ -287,7 +352,7 @@ def tr_class(rel, c, parent, parent_of, class_names):
             die(where, st, "unsupported statement in class body")
     par = "None" if parent is None else f"(Some {q(parent)})"
     return (f"  {{| c_name := {q(c.name)}; c_parent := {par};\n      c_init := {init};\n"
-            f"      c_methods := {lst([q(m) for m in methods])};\n      c_get_gemini := {gg} |}}")
+            f"      c_methods := {lst([q(m) for m in methods])};\n      c_get_gemini := {gg};\n      c_score := {score} |}}")
 
 
 def tr_registry(class_names):
